@@ -17,6 +17,7 @@ import sympy as sp
 
 from ..alg import Interp, Unsupported, arr, symbols_array
 from ..index import Index, const_eval
+from ..provenance import Prov
 from ..report import AnalysisError, key_of
 
 LEVEL = "proof"
@@ -584,10 +585,48 @@ def check(run):
     if not (ok and okr):
         run.violation("T12", f_qaa.where, "quaternion_about_axis does not represent the rotation by `angle` about `axis`", key=key_of("C19-T12", "axis"))
 
+    # -------------------------------------------------------------------- T13 closeness tests measure magnitude, not spread
+    run.rule("T13", "no closeness test in transformations.py / util.allclose reduces a difference with np.ptp (zero for a constant offset): is_rigid, identity shortcuts")
+    n13 = 0
+    for f in ix.all_functions:
+        if f.module is not mod and not (f.module.name == "trimesh.util" and f.name == "allclose"):
+            continue
+        cmps = [c for c in ast.walk(f.node) if isinstance(c, ast.Compare) and len(c.ops) == 1 and isinstance(c.ops[0], (ast.Lt, ast.LtE, ast.Gt, ast.GtE))]
+        if not cmps:
+            continue
+        pv = None
+        for c in cmps:
+            for side in (c.left, c.comparators[0]):
+                calls = [x for x in ast.walk(side) if isinstance(x, ast.Call) and ast.unparse(x.func) in ("np.ptp", "numpy.ptp") and x.args]
+                for x in calls:
+                    if pv is None:
+                        pv = Prov(ix, f)
+                    st = pv.stmt_of(x)
+                    if st is None or not pv.cfg.nodes_of.get(id(st)):
+                        continue
+                    arg = pv.inline(x.args[0], st)
+                    n13 += 1
+                    diff = isinstance(arg, ast.BinOp) and isinstance(arg.op, ast.Sub)
+                    run.instance("T13", f.where, f"{f.qualname}: `{ast.unparse(c)[:70]}` reduces {'a difference' if diff else 'a plain array'} with ptp", not diff)
+                    if diff:
+                        run.violation("T13", f.where, f"`{f.qualname}` decides closeness by `{ast.unparse(c)[:80]}`: np.ptp of `{ast.unparse(arg)[:70]}` is the spread of the "
+                                                      f"differences, which is zero when every entry is off by the same amount (I + c*ones passes as identity / rigid)",
+                                      key=key_of("C19-T13", f.qualname, ast.unparse(c)[:50]))
+    # the two tests of is_rigid are present and are max-norm tests
+    f_ir = ix.func("trimesh.transformations:is_rigid")
+    pv = Prov(ix, f_ir)
+    tests = [pv.canon(c, pv.stmt_of(c)) for c in ast.walk(f_ir.node) if isinstance(c, ast.Compare) and "epsilon" in ast.unparse(c) and pv.stmt_of(c) is not None]
+    good_row = any(t in ("numpy.abs(P_matrix[-1] - [0, 0, 0, 1]).max() > P_epsilon", "numpy.abs(P_matrix[3] - [0, 0, 0, 1]).max() > P_epsilon") for t in tests)
+    good_rot = any(t.startswith("numpy.abs(numpy.dot(P_matrix[:3, :3], P_matrix[:3, :3].T) - ") and t.endswith(").max() < P_epsilon") for t in tests)
+    ok = good_row and good_rot
+    run.instance("T13", f_ir.where, f"is_rigid tests the last row and R R^T - I by largest absolute entry ({tests})", ok)
+    if not ok and not any(v["rule"] == "T13" for v in run.violations):
+        run.instance("T13", f_ir.where, "is_rigid: tests not in a recognised max-norm form - NOT decided", True, nontrivial=False)
+        run.assume(f"is_rigid closeness tests have an unrecognised form {tests}")
+
     # -------------------------------------------------------------------- T8 result arrays are float by construction
     run.rule("T8", "no matrix builder stores into an array whose dtype is the caller's (a copy / view of a parameter without a float conversion): integer input would truncate")
     import re as _re
-    from ..provenance import Prov
     PARAM_TYPED = _re.compile(r"^(?:numpy\.(?:asanyarray|asarray|array|ascontiguousarray)\((P_\w+)\)|(P_\w+))((?:\.copy\(\)|\.T|\.view\([^)]*\)|\[[^\]]*\])*)$")
     OUT_PARAMS = {("unit_vector", "out"): "documented output buffer supplied by the caller"}
     n8 = 0
